@@ -17,8 +17,8 @@ PROPERTY = "C16"
 LEVEL = "exploration"
 RULE = (
     "Hypothesis draws a target (a: 'block' = one independent block per operator parameter, each a Normal, "
-    "a gamma variable written through an exp TransformedParameter with its Jacobian in the joint, or a "
-    "MultivariateNormal with generated SPD precision; b: 'mvn' = one MultivariateNormal over the "
+    "a gamma variable written through an exp TransformedParameter with its Jacobian in the joint, a gamma density "
+    "on an untransformed positive parameter, or a MultivariateNormal with generated SPD precision; b: 'mvn' = one MultivariateNormal over the "
     "concatenation of all operator parameters; c: 'phylo' = 4-taxon unrooted tree likelihood (JC69 / HKY with "
     "kappa / HKY with stick-breaking frequencies) x CLI priors x Jacobians, random alignment of 4-12 sites), "
     "dimension 1..8 split over 1-3 parameters, step size log-uniform [1e-3,0.5], L in 1..30, mass matrix "
@@ -54,6 +54,16 @@ ASSUMPTIONS = [
     "hamiltonian: Hamiltonian(...)(momentum=, inverse_mass_matrix= | mass_matrix=) is compared with -log density + "
     "p'M^-1p/2 for sequences of 2-4 queries; queries at the position of the previous query are the known finding "
     "C16-hamiltonian-call-stale and are generated separately from sequences that always move",
+    "operator_retry: gamma densities on untransformed positive parameters with step sizes >= 0.1: a trajectory that "
+    "leaves the support makes the density raise ValueError and the operator retries; every momentum draw is recorded "
+    "and the Hastings term must be K(p_used) - K(p') for the LAST draw; an abandoned draw is legitimate only if the "
+    "reference trajectory for it leaves the support / the guard",
+    "sequence / operator_gibbs: one integrator (operator) instance is used for 3 trajectories (a history of steps); "
+    "between two of them every OTHER parameter of the target (loc/scale/concentration/rate/precision of the blocks; "
+    "prior rate, kappa or frequencies of the phylogenetic target) is assigned new values through Parameter.tensor while "
+    "the positions stay where the previous trajectory left them; each trajectory is compared with the reference "
+    "leapfrog of the CURRENT target and the first one after the change is also reversed; non-trivial only when the "
+    "change moves the gradient at that position by > 1e-6",
     "operator_failure: gamma targets started at x in [2,7] with step sizes >= 0.1 overflow exp(x); an attempt may "
     "be abandoned only where the reference trajectory for that momentum is itself outside the guard; when the "
     "operator gives up (+inf) the position must be bit-identical to the one before the step",
